@@ -12,8 +12,11 @@ sh "$OUT/demo/run.sh" > /tmp/sc-$ID-clean.txt 2>&1; rc_clean=$?
 git -C "$WT" apply "$OUT/patch.diff" || { echo "PATCH-DOES-NOT-APPLY $ID"; exit 3; }
 sh "$OUT/demo/run.sh" > /tmp/sc-$ID-broken.txt 2>&1; rc_broken=$?
 git -C "$WT" checkout -q -- . ; git -C "$WT" clean -fdq
+# some demonstrations end with `|| true`: also decide by what they print
+grep -q "^--- FAIL\|^FAIL\|VIOLATION" /tmp/sc-$ID-clean.txt && rc_clean=1
+grep -q "^--- FAIL\|^FAIL\|VIOLATION" /tmp/sc-$ID-broken.txt && rc_broken=1
 echo "DEMO $ID clean_rc=$rc_clean broken_rc=$rc_broken"
-if [ $rc_clean -ne 0 ] || [ $rc_broken -eq 0 ]; then echo "DEMO-NOT-CONFIRMED $ID"; tail -5 /tmp/sc-$ID-clean.txt /tmp/sc-$ID-broken.txt; rm -f /tmp/sc-$ID-*.txt; exit 4; fi
+if [ $rc_clean -ne 0 ] || [ $rc_broken -eq 0 ]; then echo "DEMO-NOT-CONFIRMED $ID"; tail -n 5 /tmp/sc-$ID-clean.txt; tail -n 5 /tmp/sc-$ID-broken.txt; rm -f /tmp/sc-$ID-*.txt; exit 4; fi
 D=/verif/seeded/$ID; mkdir -p "$D"; cp "$OUT/patch.diff" "$D/"; rm -rf "$D/demo"; cp -r "$OUT/demo" "$D/demo"; cp "$OUT/meta.json" "$D/meta.json"
 tail -c 3000 /tmp/sc-$ID-broken.txt > "$D/demo/confirmed_broken_tail.txt"; rm -f /tmp/sc-$ID-*.txt
 /verif/scripts/seeded_eval.sh "$D/patch.diff" "$ID" "$PROPS" "$TIER" ${TESTS:-} > "$D/eval.log" 2>&1
